@@ -8,6 +8,7 @@ import (
 	"fmt"
 	"os"
 	"testing"
+	"time"
 
 	"verif/sim/kernel"
 	"verif/sim/powsim"
@@ -69,7 +70,9 @@ func TestChild(t *testing.T) {
 		seed := RunSeed(spec.BaseSeed, spec.Prop, spec.Tier, i)
 		b := proto.Begin{Prop: spec.Prop, Run: i, Seed: seed, Flavour: spec.Flavour}
 		emit("BEGIN", b)
+		t0 := time.Now()
 		end := generate(t, spec.Prop, spec.Tier, seed, spec.Verbose, journal)
+		end.WallUs = time.Since(t0).Microseconds()
 		end.Run, end.Seed = i, seed
 		if i-spec.From >= 2 && end.Class == "" && !spec.Verbose {
 			end.Sample = nil
